@@ -262,6 +262,11 @@ class CacheRunner:
                 res = '[' + ','.join(codec.render_key(x) for x in cache.iterkeys()) + ']'
             elif m == 'riterkeys':
                 res = '[' + ','.join(codec.render_key(x) for x in cache.iterkeys(reverse=True)) + ']'
+            elif m == 'check':
+                ws = [str(w.message) for w in cache.check()]
+                ws = [w for w in ws if not w.startswith('empty directory')]
+                res = '[]' if not ws else '!Inconsistent'
+                self.last_check = ws
             elif m == 'len':
                 res = 'i%d' % len(cache)
             elif m == 'volume':
